@@ -2,7 +2,8 @@
 
 Stages: proofs (Properties_C15.v) -> correspondence of the Coq model (vm_compute) with the real
 sanitize_value / SanitizationConfig.from_config / extend / sanitize_url / prepare_request / vcr_writer /
-har_writer -> oracle search: canary secrets planted on every input route of real `st run` invocations
+har_writer (every field of the entry: URL, queryString, header records, cookies arrays, postData, content,
+redirectURL) / SimpleCookie -> oracle search: canary secrets planted on every input route of real `st run` invocations
 (click CliRunner against the recording loopback server) and of Case.as_curl_command, every artefact grepped.
 """
 from __future__ import annotations
@@ -587,19 +588,79 @@ TOKEN_NAMES = ["X-A", "X-Plain", "Accept", "Content-Type", "User-Agent", "Locati
                "x-api-key", "X-Request-Id", "Monkey", "Server", "set-cookie", "location", "x-secret-id", "Retry-After"]
 
 
+COOKIE_NAMES = ["sid", "SID", "theme", "lang", "jwt", "remember_me", "_gh_sess", "sessionid", "csrftoken", "auth_token", "PHPSESSID", "token",
+                "X-Key", "id", "a", "connect.sid", "JSESSIONID", "uid"]
+COOKIE_ATTRS = ["Path=/", "path=/api", "HttpOnly", "Secure", "httponly", "SECURE", "Domain=example.com", "Max-Age=5", "SameSite=Lax", "Version=1",
+                "Comment=c", "Expires=Wed, 21 Oct 2015 07:28:00 GMT", "Path=", "Domain=.x.y"]
+_SECRET_COUNTER = [0]
+SECRET_RE = __import__("re").compile(r"ZQ\d{5}x")
+
+
+def fresh_secret() -> str:
+    """A token that occurs nowhere else in the run: whatever shows it got it from the place it was planted in."""
+    _SECRET_COUNTER[0] += 1
+    return "ZQ%05dx" % _SECRET_COUNTER[0]
+
+
+def rand_cookie_text(rng, set_cookie: bool) -> str:
+    """The value of a Cookie / Set-Cookie header, inside the fragment Model_C15.simple_cookie covers: items separated by a
+    semicolon, name=value pairs (several, repeated names, empty values), attributes and flags in any case, plus the shapes
+    SimpleCookie rejects (bare word, attribute before the first cookie) or stops at (empty item)."""
+    items = []
+    for _ in range(rng.choice([1, 1, 2, 3])):
+        name = rng.choice(COOKIE_NAMES)
+        value = fresh_secret() if rng.random() < 0.7 else rng.choice(["1", "dark", "", "a/b", "x-y_z.0", "v=w"])
+        items.append(f"{name}={value}")
+        if set_cookie or rng.random() < 0.15:
+            items += [rng.choice(COOKIE_ATTRS) for _ in range(rng.choice([0, 1, 2, 3]))]
+    if items and rng.random() < 0.15:  # the same name again: the morsel keeps its place and attributes
+        items.append(items[0].split("=")[0] + "=" + fresh_secret())
+    k = rng.random()
+    if k < 0.05:
+        items.insert(rng.randrange(len(items) + 1), "bogus")
+    elif k < 0.1:
+        items.insert(0, rng.choice(COOKIE_ATTRS))
+    elif k < 0.15:
+        items.insert(rng.randrange(1, len(items) + 1), "")
+    sep = rng.choice(["; ", "; ", ";", " ; "])
+    return sep.join(items)
+
+
 def rand_interaction(rng):
     u = rand_url(rng)
-    while not url_roundtrips(u) or "'" in url_string(u) or "[" in u["netloc"] or "\u4e2d" in u["netloc"]:
+    while not url_roundtrips(u) or "'" in url_string(u) or "[" in u["netloc"] or "中" in u["netloc"]:
         u = rand_url(rng)
+
+    def value_for(name, response):
+        low = name.lower()
+        if low in ("cookie", "set-cookie") and rng.random() < 0.85:
+            return rand_cookie_text(rng, low == "set-cookie")
+        if low == "content-type":
+            return rng.choice(["application/json", "text/plain", "application/x-" + fresh_secret()])
+        if rng.random() < 0.4:
+            return rng.choice(["Bearer ", "", "k="]) + fresh_secret()
+        return rng.choice(["v", "sessionid=s3cr3t; Path=/", "/next"] if response else ["v", "s3cr3t", "a=b; c=d", ""])
+
     req_h = {}
-    for _ in range(rng.choice([1, 2, 4])):
-        req_h[rng.choice(TOKEN_NAMES)] = [rng.choice(["v", "s3cr3t", "a=b; c=d", ""])]
+    names = [rng.choice(TOKEN_NAMES) for _ in range(rng.choice([1, 2, 4]))]
+    if rng.random() < 0.5:
+        names.append("Cookie")
+    for name in names:
+        req_h[name] = [value_for(name, False)]
+    body = rng.choice([None, None, "", '{"a": 1}', "token=" + fresh_secret()])
     resp_h = None
+    content = None
     if rng.random() < 0.8:
         resp_h = {}
-        for _ in range(rng.choice([0, 1, 3])):
-            resp_h[rng.choice(TOKEN_NAMES).lower()] = [rng.choice(["v", "sessionid=s3cr3t; Path=/", "/next"]) for _ in range(rng.choice([1, 1, 2]))]
-    return {"url": u, "req_headers": req_h, "resp_headers": resp_h}
+        names = [rng.choice(TOKEN_NAMES) for _ in range(rng.choice([0, 1, 3]))]
+        if rng.random() < 0.5:
+            names.append("Set-Cookie")
+        for name in names:
+            # recorded response header names are lower case (what requests / the transport hands over) - now and then not
+            key = name if rng.random() < 0.1 else name.lower()
+            resp_h[key] = [value_for(name, True) for _ in range(rng.choice([1, 1, 2, 3] if name.lower() == "set-cookie" else [1, 1, 2]))]
+        content = rng.choice([None, "", '{"ok": true}'])
+    return {"url": u, "req_headers": req_h, "resp_headers": resp_h, "body": body, "content": content}
 
 
 def stub_recorder(inters):
@@ -607,11 +668,14 @@ def stub_recorder(inters):
 
     rec = SimpleNamespace(interactions={}, cases={}, checks={}, label="GET /x")
     for idx, it in enumerate(inters):
-        req = Request(method="GET", uri=url_string(it["url"]), body=None, body_size=None, headers=copy.deepcopy(it["req_headers"]))
+        body = None if it.get("body") is None else it["body"].encode()
+        req = Request(method="GET", uri=url_string(it["url"]), body=body, body_size=None if body is None else len(body), headers=copy.deepcopy(it["req_headers"]))
         resp = None
         if it["resp_headers"] is not None:
-            resp = SimpleNamespace(status_code=200, message="OK", elapsed=0.1, headers=copy.deepcopy(it["resp_headers"]), content=None,
-                                   encoding="utf-8", http_version="1.1", body_size=None, encoded_body=None, verify=True)
+            content = None if it.get("content") is None else it["content"].encode()
+            resp = SimpleNamespace(status_code=200, message="OK", elapsed=0.1, headers=copy.deepcopy(it["resp_headers"]), content=content,
+                                   encoding="utf-8", http_version="1.1", body_size=None if content is None else len(content),
+                                   encoded_body=None if content is None else base64.b64encode(content).decode(), verify=True)
         cid = f"c{idx}"
         rec.interactions[cid] = Interaction(request=req, response=resp)  # type: ignore[arg-type]
         meta = SimpleNamespace(generation=SimpleNamespace(time=0.1, mode=SimpleNamespace(value="positive")), components={},
@@ -621,8 +685,10 @@ def stub_recorder(inters):
     return rec
 
 
-def run_writer(fmt, inters, sanitize):
+def run_writer(fmt, inters, sanitize, spec=None):
+    """The writers sanitise with the process-wide configuration (what configure() / extend() change): spec is installed for the call."""
     from schemathesis.cli.commands.run.handlers import cassettes as C
+    from schemathesis.core.output import sanitization as S
 
     sink = _Sink()
     q = queue_mod.Queue()
@@ -630,18 +696,42 @@ def run_writer(fmt, inters, sanitize):
     q.put(C.Process(recorder=stub_recorder(inters)))
     q.put(C.Finalize())
     writer = C.har_writer if fmt == "har" else C.vcr_writer
-    writer(sink, sanitize, False, q)  # type: ignore[arg-type]
+    saved = S._DEFAULT_SANITIZATION_CONFIG
+    try:
+        if spec is not None:
+            S._DEFAULT_SANITIZATION_CONFIG = impl_cfg(spec)
+        writer(sink, sanitize, False, q)  # type: ignore[arg-type]
+    finally:
+        S._DEFAULT_SANITIZATION_CONFIG = saved
     return sink.buf.getvalue()
 
 
-def har_secret_oracle(chk, inters, har):
+def json_strings(node, path=""):
+    """Every string stored anywhere in a JSON document, with the path of its field (names of object members included)."""
+    if isinstance(node, dict):
+        for k, v in node.items():
+            yield f"{path}.{k}#name", k
+            yield from json_strings(v, f"{path}.{k}")
+    elif isinstance(node, list):
+        for idx, v in enumerate(node):
+            yield from json_strings(v, f"{path}[{idx}]")
+    elif isinstance(node, str):
+        yield path, node
+
+
+MIME_FIELDS = (".request.postData.mimeType", ".response.content.mimeType")
+
+
+def har_secret_oracle(chk, inters, har, spec=None):
     """Independent of the model: the HAR entry of a sanitised run shows neither the userinfo nor a value stored under a
-    credential-bearing name (URL, queryString records, request/response header records)."""
-    sets = ref_sets(rand_cfg_default())
+    credential-bearing name (URL, queryString records, request/response header records), and nothing that entered through a
+    credential-bearing header appears in ANY field of the entry (cookies arrays, postData, content, redirectURL, ...)."""
+    spec = spec or rand_cfg_default()
+    sets = ref_sets(spec)
     marker = sets[2]
     for it, h in zip(inters, har["log"]["entries"]):
         u = it["url"]
-        case = {"interaction": it}
+        case = {"interaction": it, "cfg": spec}
         url = h["request"]["url"]
         if "@" in u["netloc"]:
             chk.count("har_entry:url-with-userinfo")
@@ -649,7 +739,7 @@ def har_secret_oracle(chk, inters, har):
             userinfo = u["netloc"].rsplit("@", 1)[0]
             if not url.startswith(f"{u['scheme']}://{marker}@{host}"):
                 chk.fail("HAR request.url does not carry the redaction marker in place of the userinfo", case, url, region=None)
-            if len(userinfo) >= 4 and userinfo + "@" in json.dumps(h):
+            if len(userinfo) >= 4 and userinfo + "@" in json.dumps(h) and userinfo != marker:
                 chk.fail("URL userinfo appears in the HAR entry", case, url, region=None)
         for rec in h["request"]["queryString"]:
             if ref_sensitive(sets, rec["name"]) and rec["value"] != marker:
@@ -664,6 +754,74 @@ def har_secret_oracle(chk, inters, har):
         for rec in records:
             if ref_sensitive(sets, rec["name"]) and rec["value"] != marker:
                 chk.fail("HAR header record with a sensitive name keeps its value", case, rec, region=None)
+        # whatever entered through a credential-bearing header is absent from every field of the entry
+        planted = {}
+        for side, hs in (("request", it["req_headers"]), ("response", it["resp_headers"] or {})):
+            for name, values in hs.items():
+                if ref_sensitive(sets, name):
+                    for v in values:
+                        for tok in SECRET_RE.findall(v):
+                            planted[tok] = (side, name, v)
+        if planted:
+            chk.count("har_entry:secret-inside-sensitive-header")
+            for path, text in json_strings(h):
+                for tok in SECRET_RE.findall(text):
+                    if tok in planted and tok not in marker:
+                        side, name, v = planted[tok]
+                        region = "har_mime_content_type" if path in MIME_FIELDS and name.lower() == "content-type" else None
+                        chk.count("har_entry:leak:" + (region or path))
+                        chk.fail(f"a value that entered through the credential-bearing {side} header {name!r} appears in HAR field {path.lstrip('.')} (sanitization on)",
+                                 case, {"header": {name: v}, "field": path.lstrip("."), "field_value": text,
+                                        "request.cookies": h["request"].get("cookies"), "response.cookies": h["response"].get("cookies")}, region=region)
+
+
+def canon_cookie_impl(c):
+    return (c["name"], c["value"], c.get("path") or "", c.get("domain") or "", c.get("expires") or "", bool(c.get("httpOnly")), bool(c.get("secure")))
+
+
+def canon_cookie_model(c):
+    return (pstr(c["ck_name"]), pstr(c["ck_value"]), pstr(c["ck_path"]), pstr(c["ck_domain"]), pstr(c["ck_expires"]), c["ck_httponly"], c["ck_secure"])
+
+
+def stage_cookie_parser(chk, n):
+    """Contract of the foreign cookie parser: (a) SimpleCookie finds no cookie in a single character (what makes the cookies arrays
+    empty), (b) Model_C15.simple_cookie = SimpleCookie + _cookie_to_har on the cookie-header fragment the generators use."""
+    from schemathesis.cli.commands.run.handlers.cassettes import _cookie_to_har, _extract_cookies
+
+    rng = chk.rng
+    alphabet = [chr(i) for i in range(0x20, 0x17F)] + ["\t", "中", "K", "\U0001f600"]
+    bad = [ch for ch in alphabet if list(_cookie_to_har(ch))]
+    if bad:
+        chk.disagree("SimpleCookie finds a cookie in a single character (assumed contract forall ch, parse [ch] = [])", {"characters": bad[:10]},
+                     [canon_cookie_impl(c.asdict()) for c in _cookie_to_har(bad[0])], [])
+    texts = ["sid=A; theme=dark", "sid=A; Path=/; HttpOnly", "a", "=", "a=", "sid=A; bogus; x=1", "Path=/; sid=1", "sid=A;theme=dark", "sid=A; sid=B",
+             "Secure; a=1", "a=1; Secure", "a=b=c", " a=1 ;  b=2 ", "a=1;;b=2", "[Filtered]", "", ";", "sid=A; Path=/; sid=B",
+             "sid=A; Max-Age=5; Expires=Wed, 21 Oct 2015 07:28:00 GMT; Domain=x.y; SameSite=Lax", "SID=1; sid=2", "=x", "a=1; Path", "a=1; PATH=/p; secure"]
+    while len(texts) < n:
+        texts.append(rand_cookie_text(rng, rng.random() < 0.5))
+    model = core.coq_eval(IMPORTS, [f"simple_cookie {cstr(t)}" for t in texts])
+    nonempty = 0
+    for t, m in zip(texts, model):
+        impl = [canon_cookie_impl(c.asdict()) for c in _cookie_to_har(t)]
+        mod = [canon_cookie_model(c) for c in m]
+        nonempty += bool(impl)
+        chk.seen({"cookie_text": t}, bool(impl))
+        if impl != mod:
+            chk.disagree("http.cookies.SimpleCookie + _cookie_to_har vs Model_C15.simple_cookie (foreign-parser contract)", {"cookie_text": t}, impl, mod)
+        # _extract_cookies as it is: on the unchanged code the result is empty whatever the text
+        try:
+            got = [canon_cookie_impl(c.asdict()) for c in _extract_cookies([t])]
+        except TypeError:
+            got = "signature changed"
+        if got != []:
+            chk.count("cookie_parser:_extract_cookies-nonempty")
+    chk.stages["correspondence_cookie_parser"] = {"texts": len(texts), "with_cookies": nonempty, "single_characters": len(alphabet)}
+
+
+def c_interaction(it) -> str:
+    return "{| i_uri := %s; i_req_headers := %s; i_resp_headers := %s; i_open := %s |}" % (
+        c_url(it["url"]), c_mdict(it["req_headers"].items()),
+        copt(None if it["resp_headers"] is None else c_mdict(it["resp_headers"].items()), "mdict"), cstr(""))
 
 
 def stage_writers(chk, n):
@@ -672,68 +830,101 @@ def stage_writers(chk, n):
     rng = chk.rng
     cases = []
     for _ in range(n):
-        cases.append((rng.random() < 0.85, [rand_interaction(rng) for _ in range(rng.choice([1, 2]))]))
+        spec = rand_cfg(rng) if rng.random() < 0.35 else rand_cfg_default()
+        if spec["repl"] is not None and (any(ch in spec["repl"] for ch in "/?#@") or SECRET_RE.search(spec["repl"])):
+            spec["repl"] = "***"
+        if rng.random() < 0.1:  # the Content-Type header itself made sensitive (finding C15-F6)
+            spec = {**spec, "ext_keys": (spec["ext_keys"] or []) + ["Content-Type"]}
+        inters = [rand_interaction(rng) for _ in range(rng.choice([1, 2]))]
+        if "Content-Type" in (spec["ext_keys"] or []):
+            for it in inters:
+                it["req_headers"]["Content-Type"] = ["application/x-" + fresh_secret()]
+                it["body"] = it["body"] or "x"
+        cases.append((rng.random() < 0.85, spec, inters))
     exprs = []
-    for san, inters in cases:
+    for san, spec, inters in cases:
         for it in inters:
-            rec = "{| i_uri := %s; i_req_headers := %s; i_resp_headers := %s; i_open := %s |}" % (
-                c_url(it["url"]), c_mdict(it["req_headers"].items()),
-                copt(None if it["resp_headers"] is None else c_mdict(it["resp_headers"].items()), "mdict"), cstr(""))
-            exprs.append(f"(vcr_entry {'true' if san else 'false'} default_config {rec}, har_entry {'true' if san else 'false'} default_config {rec})")
-    model = iter(core.coq_eval(IMPORTS, exprs))
+            rec = c_interaction(it)
+            sb, cfg, hb = ("true" if san else "false"), c_cfg(spec), ("false" if it["body"] is None else "true")
+            exprs.append(f"(let c := {cfg} in let r := {rec} in (vcr_entry {sb} c r, har_entry simple_cookie {sb} c {hb} r, "
+                         f"option_map entry_cookies (har_entry_raw_cookies simple_cookie {sb} c {hb} r)))")
+    model = iter(core.coq_eval(IMPORTS, exprs, shard=max(10, len(exprs) // 8 + 1)))
     har_exc = None
-    for san, inters in cases:
-        chk.seen({"writers": inters, "sanitize": san}, True)
+    stats = {"runs": len(cases), "interactions": len(exprs), "custom_config_runs": 0, "with_cookie_headers": 0, "with_body": 0,
+             "sentinel_cookies_nonempty": 0}
+    for san, spec, inters in cases:
+        chk.seen({"writers": inters, "sanitize": san, "cfg": spec}, True)
+        stats["custom_config_runs"] += spec != rand_cfg_default()
         ms = [next(model) for _ in inters]
+        ctx = {"sanitize": san, "cfg": spec, "interactions": inters}
         try:
-            vcr = yaml.safe_load(run_writer("vcr", inters, san))
+            vcr = yaml.safe_load(run_writer("vcr", inters, san, spec))
         except Exception as exc:  # noqa: BLE001
-            chk.disagree("vcr_writer raised on a stub recorder", {"sanitize": san, "interactions": inters}, f"{type(exc).__name__}: {exc}", None)
+            chk.disagree("vcr_writer raised on a stub recorder", ctx, f"{type(exc).__name__}: {exc}", None)
             continue
         try:
-            har = json.loads(run_writer("har", inters, san))
+            har = json.loads(run_writer("har", inters, san, spec))
         except Exception as exc:  # noqa: BLE001  (before repo fix 8fd7266e: urlparse on http://[Filtered]@host)
             har = None
             har_exc = f"{type(exc).__name__}: {exc}"
         model_raises = any(m[4] is None for m in ms)
         if (har is None) != model_raises:
-            chk.disagree("har_writer raising vs Model_C15.har_entry = None", {"sanitize": san, "interactions": inters}, har_exc if har is None else "no exception", "raises" if model_raises else "no exception")
+            chk.disagree("har_writer raising vs Model_C15.har_entry = None", ctx, har_exc if har is None else "no exception", "raises" if model_raises else "no exception")
             continue
         if har is None:
             chk.count("har_writer:raises(model agrees)")
         elif san:
-            har_secret_oracle(chk, inters, har)
-        ms_iter = iter(ms)
+            har_secret_oracle(chk, inters, har, spec)
         for idx, it in enumerate(inters):
-            m_uri, m_rq, m_rs, _o, m_har = next(ms_iter)
+            m_uri, m_rq, m_rs, _o, m_har, m_sentinel = ms[idx]
+            one = {"sanitize": san, "cfg": spec, "interaction": it}
             entry = vcr["http_interactions"][idx]
             impl = {"uri": entry["request"]["uri"], "req": sorted((entry["request"]["headers"] or {}).items()),
                     "resp": None if entry["response"] is None else sorted((entry["response"]["headers"] or {}).items())}
             mod = {"uri": url_string(p_url(m_uri)), "req": sorted(p_mdict(m_rq)), "resp": None if m_rs is None else sorted(p_mdict(m_rs[1]))}
             if impl != mod:
-                chk.disagree("vcr_writer entry vs Model_C15.vcr_entry", {"sanitize": san, "interaction": it}, impl, mod)
+                chk.disagree("vcr_writer entry vs Model_C15.vcr_entry", one, impl, mod)
                 continue
             if har is None:
                 continue
             h = har["log"]["entries"][idx]
             mh = m_har[1]
+            has_resp = it["resp_headers"] is not None
+            stats["with_cookie_headers"] += any(k.lower() in ("cookie", "set-cookie") for k in list(it["req_headers"]) + list(it["resp_headers"] or {}))
+            stats["with_body"] += it["body"] is not None
+            post = h["request"].get("postData")
             impl_h = {"url": h["request"]["url"], "query": [(x["name"], x["value"]) for x in h["request"]["queryString"]],
                       "req": sorted((x["name"], x["value"]) for x in h["request"]["headers"]),
-                      "resp": None if it["resp_headers"] is None else sorted((x["name"], x["value"]) for x in h["response"]["headers"]),
-                      "redirect": None if it["resp_headers"] is None else h["response"].get("redirectURL", "")}
+                      "req_cookies": [canon_cookie_impl(c) for c in h["request"]["cookies"]],
+                      "post_mime": None if post is None else post.get("mimeType"),
+                      "post_text": None if post is None else post.get("text"),
+                      "resp": None if not has_resp else sorted((x["name"], x["value"]) for x in h["response"]["headers"]),
+                      "resp_cookies": None if not has_resp else [canon_cookie_impl(c) for c in h["response"]["cookies"]],
+                      "content_mime": None if not has_resp else h["response"]["content"].get("mimeType"),
+                      "content_text": None if not has_resp else h["response"]["content"].get("text"),
+                      "redirect": None if not has_resp else h["response"].get("redirectURL", "")}
             mu = p_url(mh["h_url"])
-            resp = mh["h_resp"]
-            loc = None
-            if resp is not None:
-                loc_vs = [pstr(x) for x in resp[1][2]]
-                loc = loc_vs[0] if loc_vs else ""
+            resp = mh["h_resp"][1] if mh["h_resp"] is not None else None
             mod_h = {"url": url_string(mu), "query": [(pstr(k), pstr(v)) for k, v in mh["h_query"]],
                      "req": sorted((pstr(k), pstr(v)) for k, v in mh["h_req_headers"]),
-                     "resp": None if resp is None else sorted((pstr(k), pstr(v)) for k, v in resp[1][0]),
-                     "redirect": loc}
+                     "req_cookies": [canon_cookie_model(c) for c in mh["h_req_cookies"]],
+                     "post_mime": None if mh["h_post_mime"] is None else pstr(mh["h_post_mime"][1]),
+                     "post_text": it["body"],  # open text: passed through by every channel
+                     "resp": None if resp is None else sorted((pstr(k), pstr(v)) for k, v in resp["hr_headers"]),
+                     "resp_cookies": None if resp is None else [canon_cookie_model(c) for c in resp["hr_cookies"]],
+                     "content_mime": None if resp is None else pstr(resp["hr_mime"]),
+                     "content_text": None if resp is None else it["content"],
+                     "redirect": None if resp is None else pstr(resp["hr_redirect"])}
+            sent = None if m_sentinel is None else ([canon_cookie_model(c) for c in m_sentinel[1][0]], [canon_cookie_model(c) for c in m_sentinel[1][1]])
+            stats["sentinel_cookies_nonempty"] += bool(sent and (sent[0] or sent[1]))
             if impl_h != mod_h:
-                chk.disagree("har_writer entry vs Model_C15.har_entry", {"sanitize": san, "interaction": it}, impl_h, mod_h)
-    chk.stages["correspondence_writers"] = {"runs": len(cases), "interactions": len(exprs)}
+                what = "har_writer entry vs Model_C15.har_entry"
+                if (impl_h["req_cookies"], impl_h["resp_cookies"]) != (mod_h["req_cookies"], mod_h["resp_cookies"]):
+                    what += " (cookies arrays)"
+                    if sent is not None and (impl_h["req_cookies"], impl_h["resp_cookies"] or []) == sent:
+                        what += ": the implementation behaves like the refuted sentinel har_entry_raw_cookies (C15_channel_ni_har_raw_cookies_refuted)"
+                chk.disagree(what, one, impl_h, mod_h)
+    chk.stages["correspondence_writers"] = stats
 
 
 # ----------------------------------------------------------------------------------------
@@ -744,7 +935,13 @@ CAN = {
     "cli_header": "CANARYHDRdd", "cli_marker_header": "CANARYMRKee", "cli_auth_user": "CANARYAUee", "cli_auth_pass": "CANARYAPff",
     "gen_header": "CANARYGENHgg", "gen_query": "CANARYGENQhh", "gen_cookie": "CANARYGENCii",
     "set_cookie": "CANARYSETCjj", "resp_token": "CANARYRESPkk",
+    # secrets INSIDE Cookie / Set-Cookie headers under cookie names that are not themselves sensitive
+    "cli_cookie_sid": "CANARYCKSIDnn", "cli_cookie_sensitive": "CANARYCKTOKoo", "gen_cookie_plain": "CANARYGENSIDpp", "auth_cookie": "CANARYAUTHCKqq",
+    "set_cookie_sid": "CANARYSETSIDrr", "set_cookie_remember": "CANARYSETREMss", "set_cookie_jwt": "CANARYSETJWTtt",
 }
+COOKIE_ROUTE_CANARIES = {"cli_header": ["cli_cookie_sid", "cli_cookie_sensitive"], "generated": ["gen_cookie", "gen_cookie_plain"],
+                         "auth_provider": ["auth_cookie", "gen_cookie", "gen_cookie_plain"]}
+ALL_COOKIE_ROUTE_CANARIES = ["cli_cookie_sid", "cli_cookie_sensitive", "gen_cookie", "gen_cookie_plain", "auth_cookie"]
 PLAIN = {"cli_plain_header": "PLAINHDRll", "gen_plain_query": "PLAINQmm"}
 
 
@@ -761,6 +958,7 @@ def cli_schema():
                 enum_param("api_key", "query", CAN["gen_query"]),
                 enum_param("page", "query", PLAIN["gen_plain_query"]),
                 enum_param("sessionid", "cookie", CAN["gen_cookie"]),
+                enum_param("sid", "cookie", CAN["gen_cookie_plain"]),
             ],
             "responses": {"200": {"description": "ok", "content": {"application/json": {"schema": {"type": "object"}}}}},
         }}},
@@ -770,12 +968,20 @@ def cli_schema():
 def cli_responder(item):
     if item["target"].startswith("/openapi.json"):
         return 200, [("Content-Type", "application/json")], json.dumps(cli_schema()).encode()
-    return 500, [("Content-Type", "application/json"), ("Set-Cookie", f"sessionid={CAN['set_cookie']}; Path=/"), ("X-Auth-Token", CAN["resp_token"])], b'{"detail": "boom"}'
+    return 500, [("Content-Type", "application/json"), ("Set-Cookie", f"sessionid={CAN['set_cookie']}; Path=/"),
+                 ("Set-Cookie", f"sid={CAN['set_cookie_sid']}; Path=/; HttpOnly"),
+                 ("Set-Cookie", f"remember_me={CAN['set_cookie_remember']}; Max-Age=5; Secure; SameSite=Lax"),
+                 ("Set-Cookie", f"theme=dark; jwt={CAN['set_cookie_jwt']}; Domain=127.0.0.1"),
+                 ("X-Auth-Token", CAN["resp_token"])], b'{"detail": "boom"}'
 
 
-def run_cli(rec, *, userinfo: bool, auth_route: str, sanitize: bool, configure=None):
-    """One real `st run`; returns {artefact name: text}."""
+def run_cli(rec, *, userinfo: bool, auth_route: str, sanitize: bool, configure=None, cookie_route="generated"):
+    """One real `st run`; returns {artefact name: text}.  cookie_route: how the request Cookie header comes about - "generated" (cookie
+    parameters of the schema -> case.cookies), "cli_header" (-H "Cookie: sid=...; theme=dark; auth_token=..."), "auth_provider" (a
+    registered auth provider puts a jwt cookie on every case)."""
     from click.testing import CliRunner
+
+    import schemathesis
 
     from schemathesis.cli import schemathesis as st_group
     from schemathesis.core.output import sanitization as S
@@ -790,6 +996,8 @@ def run_cli(rec, *, userinfo: bool, auth_route: str, sanitize: bool, configure=N
         args += ["--auth", f"{CAN['cli_auth_user']}:{CAN['cli_auth_pass']}", "-H", f"X-Api-Key: {CAN['cli_header']}"]
     else:
         args += ["-H", f"Authorization: Bearer {CAN['cli_header']}"]
+    if cookie_route == "cli_header":
+        args += ["-H", f"Cookie: sid={CAN['cli_cookie_sid']}; theme=dark; auth_token={CAN['cli_cookie_sensitive']}"]
     saved_argv, saved_cfg, saved_cols = sys.argv[:], S._DEFAULT_SANITIZATION_CONFIG, os.environ.get("COLUMNS")
     out = {}
     try:
@@ -799,6 +1007,16 @@ def run_cli(rec, *, userinfo: bool, auth_route: str, sanitize: bool, configure=N
             S.extend(keys_to_sanitize=["X-Plain"], sensitive_markers=["PAGE"])
         elif configure == "configure-empty":
             S.configure(keys_to_sanitize=[], sensitive_markers=[])
+        if cookie_route == "auth_provider":
+
+            @schemathesis.auth()
+            class CookieAuth:
+                def get(self, case, context):
+                    return CAN["auth_cookie"]
+
+                def set(self, case, data, context):
+                    case.cookies = {**(case.cookies or {}), "jwt": data}
+
         res = CliRunner().invoke(st_group, args)
         out["console"] = res.output
         out["_exit"] = res.exit_code
@@ -813,6 +1031,8 @@ def run_cli(rec, *, userinfo: bool, auth_route: str, sanitize: bool, configure=N
     finally:
         sys.argv = saved_argv
         S._DEFAULT_SANITIZATION_CONFIG = saved_cfg
+        if cookie_route == "auth_provider":
+            schemathesis.auths.unregister()
         if saved_cols is None:
             os.environ.pop("COLUMNS", None)
         else:
@@ -851,12 +1071,13 @@ def canary_forms(name, value):
 def stage_cli_search(chk, scenarios):
     rec = Recorder(cli_responder)
     stats = {"runs": 0, "leaks_inside_listed_regions": {}, "har_without_entries": 0}
+    seen_requests = 0
     try:
         for sc in scenarios:
             arte = run_cli(rec, **sc)
             stats["runs"] += 1
             chk.seen({"cli": sc}, True)
-            chk.count(f"cli:sanitize={sc['sanitize']}:configure={sc['configure']}")
+            chk.count(f"cli:sanitize={sc['sanitize']}:configure={sc['configure']}:cookies={sc.get('cookie_route', 'generated')}")
             parts = split_regions(arte)
             case = {"scenario": sc}
             if "Reproduce with" not in parts["console"] or "curl" not in parts["junit.xml"] or "http_interactions" not in parts["vcr.yaml"]:
@@ -875,6 +1096,23 @@ def stage_cli_search(chk, scenarios):
                 used.pop("userinfo_user"), used.pop("userinfo_pass")
             if sc["auth_route"] != "auth":
                 used.pop("cli_auth_user"), used.pop("cli_auth_pass")
+            route = sc.get("cookie_route", "generated")
+            for cname in ALL_COOKIE_ROUTE_CANARIES:
+                if cname not in COOKIE_ROUTE_CANARIES[route]:
+                    used.pop(cname)
+            # the secrets did travel: the server saw every cookie canary of this route inside a Cookie header
+            api_calls = [r for r in rec.requests[seen_requests:] if not r["target"].startswith("/openapi.json")]
+            seen_requests = len(rec.requests)
+            for cname in COOKIE_ROUTE_CANARIES[route]:
+                if not any(CAN[cname] in v for r in api_calls for k, v in r["headers"] if k.lower() == "cookie"):
+                    chk.disagree(f"the cookie canary {cname} never reached the server inside a Cookie header (the search would be vacuous)", case,
+                                 [v for r in api_calls[:3] for k, v in r["headers"] if k.lower() == "cookie"], None)
+            har_doc = None
+            if har_ok:
+                try:
+                    har_doc = json.loads(parts["har.json"])
+                except ValueError:
+                    chk.disagree("har.json is not a JSON document", case, parts["har.json"][:300], None)
             secret_now = sc["sanitize"]
             for pname, text in parts.items():
                 if pname == "har.json" and not har_ok:
@@ -888,7 +1126,11 @@ def stage_cli_search(chk, scenarios):
                         if region:
                             stats["leaks_inside_listed_regions"][region] = stats["leaks_inside_listed_regions"].get(region, 0) + 1
                         idx = min(text.index(f) for f in canary_forms(cname, cval) if f in text)
-                        chk.fail(f"secret planted on route {cname} appears in {pname}", case, text[max(0, idx - 100) : idx + 60], region=region)
+                        detail = text[max(0, idx - 100) : idx + 60]
+                        if pname == "har.json" and har_doc is not None:  # which JSON fields carry it
+                            fields = sorted({path.lstrip(".") for path, t in json_strings(har_doc) if any(f in t for f in canary_forms(cname, cval))})
+                            detail = {"fields": fields[:6], "text": detail}
+                        chk.fail(f"secret planted on route {cname} appears in {pname}", case, detail, region=region)
                 # non-vacuity and the other direction: what is not secret must still be there
                 if pname in ("vcr.yaml", "har.json", "junit.xml", "console"):
                     plain_expected = sc["configure"] != "extend-plain" or not sc["sanitize"]
@@ -896,6 +1138,12 @@ def stage_cli_search(chk, scenarios):
                         chk.fail(f"non-sensitive header value missing from {pname} (sanitization removed too much or the artefact is empty)", case, text[:300], region=None)
                     if not plain_expected and PLAIN["cli_plain_header"] in text:
                         chk.fail(f"extend(keys_to_sanitize=[X-Plain]) did not redact X-Plain in {pname}", case, None, region=None)
+                    if (not sc["sanitize"] or sc["configure"] == "configure-empty") and pname in ("vcr.yaml", "har.json"):
+                        for cname in COOKIE_ROUTE_CANARIES[route] + ["set_cookie_sid", "set_cookie_remember", "set_cookie_jwt"]:
+                            if pname == "har.json" and cname.startswith("set_cookie_") and cname != "set_cookie":
+                                continue  # HAR header records keep values[0] only: the first Set-Cookie line
+                            if used[cname] not in text:
+                                chk.fail(f"sanitization off / lists emptied, but the cookie value on route {cname} is missing from {pname}", case, None, region=None)
                     if not sc["sanitize"] or sc["configure"] == "configure-empty":
                         for cname in ("cli_header", "cli_marker_header", "gen_header", "gen_query"):
                             if cname in ("gen_query",) and pname in ("junit.xml", "console") and False:
@@ -939,6 +1187,14 @@ def witness_fails(w) -> bool:
             return True
         text = json.dumps(har["log"]["entries"])
         return len(har["log"]["entries"]) != 1 or w["needle_absent"] in text or w["needle_present"] not in text
+    if kind == "har_mime":
+        it = {"url": {"scheme": "http", "netloc": "127.0.0.1:8080", "path": "/items", "query": [], "fragment": ""},
+              "req_headers": w["req_headers"], "resp_headers": None, "body": w["body"], "content": None}
+        spec = {**rand_cfg_default(), "ext_keys": w["ext_keys"]}
+        entry = json.loads(run_writer("har", [it], True, spec))["log"]["entries"][0]
+        records = {x["name"]: x["value"] for x in entry["request"]["headers"]}
+        # the header record is redacted, the same value sits in postData.mimeType
+        return all(v == "[Filtered]" for v in records.values()) and w["needle"] in (entry["request"].get("postData") or {}).get("mimeType", "")
     raise ValueError(kind)
 
 
@@ -960,14 +1216,20 @@ def run(chk: core.Check):
         "request and response bodies, the URL path and fragment, failure messages and non-sensitive names are not credential-bearing (property text)",
         "requests prepare() adds a Cookie header from the jar only when none is present and lets the auth object overwrite Authorization "
         "(validated per run by the prepare_request correspondence)",
+        "the cookie parser (http.cookies.SimpleCookie) is foreign: the HAR theorems quantify over every parser; the cookies arrays are empty under the "
+        "contract `forall ch, parse [ch] = []` (validated per run on 355 characters; proved for the modelled fragment parser Model_C15.simple_cookie, "
+        "which is itself compared with SimpleCookie + _cookie_to_har on generated Cookie / Set-Cookie texts)",
     ]
     chk.rule = (
         "one PRNG (VERIF_SEED): nested JSON values (depth<=4; dicts, lists, recorded-header dicts, CaseInsensitiveDict) whose keys are drawn from "
         "default keys in many casings, marker-containing names, near misses and random case/prefix/suffix/deletion mutations; configurations built by "
         "from_config then extend (45% default; custom keys/markers incl. the empty marker, custom replacement), 1 in 5 through the global "
         "configure()/extend(); URLs over userinfo variants (none, user:pass, several @, empty, unicode) x repeated query names x reserved characters; "
-        "Case kwargs over headers/cookies/query/auth/userinfo x sanitize on/off; stub recorders for the writers; real `st run` invocations with "
-        "canaries on every route x sanitize on/off x extend/configure. non-trivial = the input has at least one secret position; distinct by canonical JSON"
+        "Case kwargs over headers/cookies/query/auth/userinfo x sanitize on/off; stub recorders for the writers (35% under a custom process-wide "
+        "configuration) whose Cookie / Set-Cookie headers carry several name=value pairs (innocuous and sensitive names, repeated names, attributes, "
+        "flags, rejected shapes, several Set-Cookie lines) with run-unique secret tokens inside, request / response bodies; real `st run` invocations with "
+        "canaries on every route (incl. inside Cookie headers given with -H, generated from cookie parameters, set by an auth provider, and inside several "
+        "Set-Cookie response lines) x sanitize on/off x extend/configure; every artefact grepped, the HAR document field by field. non-trivial = the input has at least one secret position; distinct by canonical JSON"
     )
     chk.proofs(["Common", "C15"])
 
@@ -975,23 +1237,26 @@ def run(chk: core.Check):
     stage_sanitize_value(chk, 900 if quick else 9000)
     stage_sanitize_url(chk, 500 if quick else 5000)
     stage_prepare_request(chk, 250 if quick else 2500)
-    stage_writers(chk, 80 if quick else 800)
+    stage_cookie_parser(chk, 250 if quick else 2500)
+    stage_writers(chk, 200 if quick else 2000)
 
     scenarios = [
-        {"userinfo": True, "auth_route": "header", "sanitize": True, "configure": None},
-        {"userinfo": False, "auth_route": "auth", "sanitize": True, "configure": None},
-        {"userinfo": False, "auth_route": "header", "sanitize": False, "configure": None},
-        {"userinfo": False, "auth_route": "auth", "sanitize": True, "configure": "extend-plain"},
-        {"userinfo": False, "auth_route": "header", "sanitize": True, "configure": "configure-empty"},
+        {"userinfo": True, "auth_route": "header", "sanitize": True, "configure": None, "cookie_route": "cli_header"},
+        {"userinfo": False, "auth_route": "auth", "sanitize": True, "configure": None, "cookie_route": "generated"},
+        {"userinfo": False, "auth_route": "header", "sanitize": True, "configure": None, "cookie_route": "auth_provider"},
+        {"userinfo": False, "auth_route": "header", "sanitize": False, "configure": None, "cookie_route": "cli_header"},
+        {"userinfo": False, "auth_route": "auth", "sanitize": True, "configure": "extend-plain", "cookie_route": "generated"},
+        {"userinfo": False, "auth_route": "header", "sanitize": True, "configure": "configure-empty", "cookie_route": "auth_provider"},
     ]
     if not quick or chk.broken:
         scenarios += [
-            {"userinfo": True, "auth_route": "auth", "sanitize": True, "configure": None},
-            {"userinfo": True, "auth_route": "auth", "sanitize": False, "configure": None},
-            {"userinfo": True, "auth_route": "header", "sanitize": True, "configure": "extend-plain"},
-            {"userinfo": True, "auth_route": "auth", "sanitize": True, "configure": "configure-empty"},
-            {"userinfo": False, "auth_route": "header", "sanitize": True, "configure": None},
-            {"userinfo": False, "auth_route": "auth", "sanitize": False, "configure": "extend-plain"},
+            {"userinfo": True, "auth_route": "auth", "sanitize": True, "configure": None, "cookie_route": "cli_header"},
+            {"userinfo": True, "auth_route": "auth", "sanitize": False, "configure": None, "cookie_route": "generated"},
+            {"userinfo": True, "auth_route": "header", "sanitize": True, "configure": "extend-plain", "cookie_route": "auth_provider"},
+            {"userinfo": True, "auth_route": "auth", "sanitize": True, "configure": "configure-empty", "cookie_route": "cli_header"},
+            {"userinfo": False, "auth_route": "header", "sanitize": True, "configure": None, "cookie_route": "generated"},
+            {"userinfo": False, "auth_route": "auth", "sanitize": False, "configure": "extend-plain", "cookie_route": "cli_header"},
+            {"userinfo": False, "auth_route": "header", "sanitize": False, "configure": None, "cookie_route": "auth_provider"},
         ]
     stage_cli_search(chk, scenarios)
 
